@@ -4,8 +4,9 @@ import Gv.Oracle.CliStatsSeq
 import Gv.Oracle.Det
 import Gv.Oracle.Clean
 import Gv.Oracle.Stats
+import Gv.Oracle.FrameStats
 import Gv.Oracle.Loop
 /-! oracle of property C14: only the handlers it needs -/
 open Gv Gv.Oracle
 
-def main : IO Unit := runOracle [CleanOps.handle, StatsOps.handle, DetOps.handle, CliPssmOps.handle, CliStatsSeqOps.handle, CliOps.handle]
+def main : IO Unit := runOracle [CleanOps.handle, StatsOps.handle, FrameStatsOps.handle, DetOps.handle, CliPssmOps.handle, CliStatsSeqOps.handle, CliOps.handle]
